@@ -62,13 +62,20 @@ func BuildSPMetadata(c *SPCfg) string {
 			"</" + dsp + "X509Certificate></" + dsp + "X509Data></" + dsp + "KeyInfo></" + mdp + "KeyDescriptor>\n")
 	}
 	for _, s := range c.SLO {
-		sb.WriteString("    <" + mdp + `SingleLogoutService Binding="` + xa(s.Binding) + `" Location="` + xa(s.URL) + `"/>` + "\n")
+		rl := ""
+		if s.RespLoc != "" {
+			rl = ` ResponseLocation="` + xa(s.RespLoc) + `"`
+		}
+		sb.WriteString("    <" + mdp + `SingleLogoutService Binding="` + xa(s.Binding) + `" Location="` + xa(s.URL) + `"` + rl + `/>` + "\n")
 	}
 	sb.WriteString("    <" + mdp + "NameIDFormat>urn:oasis:names:tc:SAML:1.1:nameid-format:emailAddress</" + mdp + "NameIDFormat>\n")
 	for _, a := range c.ACS {
 		sb.WriteString("    <" + mdp + `AssertionConsumerService Binding="` + xa(a.Binding) + `" Location="` + xa(a.URL) + `" index="` + xa(a.Index) + `"`)
 		if a.IsDefault != "" {
 			sb.WriteString(` isDefault="` + xa(a.IsDefault) + `"`)
+		}
+		if a.RespLoc != "" {
+			sb.WriteString(` ResponseLocation="` + xa(a.RespLoc) + `"`)
 		}
 		sb.WriteString("/>\n")
 	}
@@ -658,6 +665,11 @@ func BuildRequest(w *World, t *Task, m *MsgSpec) (*http.Request, *Sent, error) {
 	}
 	if delay > 0 && time.Now().Add(time.Duration(delay)).After(simClockLimit) {
 		delay = 0 // the simulated clock stays inside the validity of the fixture certificates (see simClockLimit)
+	}
+	if delay > 0 && w.runningTasks() > 0 {
+		// a request is blocked on a lock inside the library (see advance): the bubble clock cannot move now
+		w.probe("clock_move_skipped_task_blocked_on_library_lock")
+		delay = 0
 	}
 	if delay > 0 {
 		infl := w.inflight()
